@@ -5,6 +5,7 @@ use std::io::{BufRead, BufReader, Write};
 use std::panic::{catch_unwind, AssertUnwindSafe};
 
 mod coord;
+mod hdr;
 mod pexpr;
 mod sql;
 mod tup;
@@ -58,6 +59,7 @@ fn main() {
                     "wal" => wal::run(&toks),
                     "tup" => tup::run(&toks),
                     "coord" => coord::run(&toks),
+                    "hdr" => hdr::run(&toks),
                     _ => panic!("unknown mode"),
                 }));
                 let s = match r {
